@@ -373,6 +373,40 @@ def masking(prog: Program, rep: Report, rule: str) -> None:
     rep.check("R02.5", ff.qual, "both storage kinds handled", n_scaled >= 1 and n_raw >= 1, what_bad=f"{n_scaled} packed arm(s), {n_raw} float arm(s)", what_ok="packed and float", loc=ff.loc())
 
 
+def packing_per_file(prog: Program, rep: Report) -> None:
+    """R02.5: the packing attributes belong to the file that is open: every path through
+    open_forcing_file that installs a dataset also rebuilds scaled / scale_factor / add_offset from it."""
+    from ..paths import enumerate_paths
+    from ..program import xunparse, single_defs
+
+    rule = "R02.5"
+    fi = prog.role_func("forcing", "open_forcing_file")
+    defs = single_defs(fi.node)
+    n = 0
+    for p in enumerate_paths(fi.node.body, unroll=(1,)):
+        if p.exit == "raise":
+            continue
+        stmts = p.stmts()
+        installs = [st for st in stmts if isinstance(st, ast.Assign) and unparse(st.targets[0]) == "self._nc"]
+        if not installs:
+            continue
+        n += 1
+        reset = any(isinstance(st, ast.Assign) and unparse(st.targets[0]) == "self.scaled" for st in stmts)
+        per_key = [st for st in stmts if isinstance(st, ast.Assign) and unparse(st.targets[0]).startswith("self.scaled[")]
+        ok = reset and bool(per_key)
+        rep.check(rule, fi.qual, f"path {p.describe()}: packing info rebuilt for the file just opened", ok, what_bad="a forcing file is installed without reading its own scale_factor/add_offset: fields of a later file in a multi-file run are decoded with another file's packing (files repacked separately, packed and float files mixed)", what_ok="scaled / scale_factor / add_offset rebuilt", loc=fi.loc())
+    if n == 0:
+        raise AnalysisError("open_forcing_file: no path installs self._nc")
+    # the attributes are read from the dataset that is installed
+    ds = [xunparse(st.value, fi.node, defs) for st in walk_no_nested(fi.node) if isinstance(st, ast.Assign) and unparse(st.targets[0]) == "self._nc"]
+    reads = [nn for nn in walk_no_nested(fi.node) if isinstance(nn, ast.Attribute) and nn.attr in ("scale_factor", "add_offset") and isinstance(nn.ctx, ast.Load) and unparse(nn.value) != "self"]
+    srcs = {xunparse(r.value, fi.node, defs).split(".variables")[0] for r in reads}
+    rep.check(rule, fi.qual, "scale_factor / add_offset are read from the dataset that was opened", bool(reads) and len(ds) == 1 and srcs == {ds[0]}, what_bad=f"installed dataset {ds}, attributes read from {sorted(srcs)}", what_ok="same dataset", loc=fi.loc())
+    loops = [nn for nn in walk_no_nested(fi.node) if isinstance(nn, ast.For) and any("self.scaled[" in unparse(x) for x in ast.walk(nn))]
+    it = xunparse(loops[0].iter, fi.node, defs) if loops else ""
+    rep.check(rule, fi.qual, "every forcing variable (u, v and the extra fields) gets packing info", "'u'" in it and "'v'" in it and "extra_forcing" in it, what_bad=f"loop over {it}", what_ok="u, v, *extra_forcing", loc=fi.loc())
+
+
 def mask_construction(prog: Program, rep: Report, rule: str) -> None:
     """Mu interior = product of the two rho-masks adjacent along x; Mv along y."""
     fi = prog.role_func("grid", "__init__")
@@ -477,6 +511,7 @@ def run(prog: Program, rep: Report, tier: str) -> None:
     z2s_call(prog, rep, "R02.3")
     frames(prog, rep, "R02.1")
     masking(prog, rep, "R02.4")
+    packing_per_file(prog, rep)
     mask_construction(prog, rep, "R02.4")
 
 
@@ -511,6 +546,7 @@ AUDIT = [
     Mut("scale-v-with-u", R, 'V = self.scale_factor["v"] * V', 'V = self.scale_factor["u"] * V', rule="R02.5"),
     Mut("scalar-no-offset", R, "F: Field = self.add_offset[name] + self.scale_factor[name] * F0", "F: Field = self.scale_factor[name] * F0", rule="R02.5"),
     Mut("scalar-always-scaled", R, "        else:\n            F = F0\n        return F", "        else:\n            F = self.scale_factor[name] * F0\n        return F", rule="R02.5"),
+    Mut("packing-once", R, "        self._nc_file = self.file_idx[time_step]\n", "        self._nc_file = self.file_idx[time_step]\n        if not self._first_read:\n            return\n", rule="R02.5"),
     Mut("benign-tri-reorder", R, "            (1 - p) * (1 - q) * f00\n            + p * (1 - q) * f10\n            + (1 - p) * q * f01\n            + p * q * f11", "            (1 - q) * ((1 - p) * f00 + p * f10)\n            + q * ((1 - p) * f01 + p * f11)", expect="silent"),
     Mut("benign-z2s-weight-form", R, "A[n] = (zr[k] + Z[n]) / (zr[k] - zr[k - 1])", "A[n] = 1 - (-Z[n] - zr[k - 1]) / (zr[k] - zr[k - 1])", expect="silent"),
     Mut("benign-offset-local", R, "        return sample3DUV(U, V, X - i0, Y - j0, self.K, self.A, method=method)", "        Xr = X - i0\n        Yr = Y - j0\n        return sample3DUV(U, V, Xr, Yr, self.K, self.A, method=method)", expect="silent"),
